@@ -187,6 +187,30 @@ def check_persistence(it, fn, a):
         if dryrun:
             if text != before:
                 problems.append("dry run wrote the configuration file")
+            # ... and through the real command handlers (they are what decides to store): every sub-command that takes --write,
+            # as a dry run, leaves the user's file as it was
+            g = sb.g
+            for cmd, handler in (("stmt", "request_stmt"), ("stmtend", "request_stmtend"), ("prof", "request_profile"), ("acctinfo", "request_acctinfo"), ("tax1099", "request_tax1099")):
+                argv2 = [cmd, server, "--write", "--dryrun"]
+                for o in first_opts:
+                    argv2 += o
+                try:
+                    g.USERCFG = g.UserConfig(); g.USERCFG.read([g.CONFIGPATH, g.USERCONFIGPATH])
+                    import contextlib, io as _io
+                    with contextlib.redirect_stderr(_io.StringIO()):
+                        ns = g.make_argparser().parse_args(argv2)
+                except SystemExit:
+                    continue                  # this sub-command does not take one of the options
+                try:
+                    with patch("urllib.request.urlopen", lambda *a_, **k_: _Resp(home_record(None))), patch("builtins.print"), \
+                            patch("ofxtools.scripts.ofxget.get_passwd", lambda a_: "t0ps3kr1t"):
+                        merged = g.merge_config(ns, g.USERCFG)
+                        getattr(g, handler)(merged)
+                except (SystemExit, Exception):
+                    pass
+                if sb.userfile() != before:
+                    problems.append(f"'ofxget {cmd} --dryrun --write' wrote the configuration file")
+                    break
             return problems
         if text is None:
             return ["--write produced no file"]
